@@ -1121,7 +1121,8 @@ SIGNATURES = {
     "json-entry-type-mismatch": dict(kind="uncaught", detail=r"std::runtime_error\|.*type mismatch! call is<type>", args=r"--project=\S*\.json"),
     "vcxproj-condition-segv": dict(kind="signal", detail=r"11", args=r"--project=\S*\.vcxproj", input=r"Condition="),
     "self-include-twice-hang": dict(kind="timeout", detail=r"", pred="self_include_twice"),
-    "nested-call-stack-overflow": dict(kind="signal", detail=r"11", input=r"(?:\w\(){3000}"),
+    # o1 binary: SIGSEGV; ASan binary: "AddressSanitizer: stack-overflow"
+    "nested-call-stack-overflow": dict(kind="signal|sanitizer", detail=r"11|.*AddressSanitizer: stack-overflow", input=r"(?:\w\(){3000}"),
     "leakautovar-nested-call-exponential": dict(kind="timeout", detail=r"", input=r"(?:\b\w+\(){25}"),
     "ast-nested-lambda-hang": dict(kind="timeout", detail=r"", input=r"\[\]\s*\{[^;]*\[\]\s*\{"),
     "vcxproj-condition-internalerror": dict(kind="uncaught", detail=r"InternalError", args=r"--project=\S*\.vcxproj", input=r"Condition="),
@@ -1136,7 +1137,7 @@ def attribute(files, args, o):
     a = " ".join(args)
     inp = b"\n".join(v if isinstance(v, bytes) else v.encode("latin-1", "replace") for v in files.values()).decode("latin-1")
     for key, sig in SIGNATURES.items():
-        if sig["kind"] != o["kind"]:
+        if not re.fullmatch(sig["kind"], o["kind"]):
             continue
         if not re.search(sig["detail"], o.get("detail", "")):
             continue
